@@ -68,6 +68,8 @@ def ps3_7_no_dataset() -> int:
 def run(repo, rep):
     from ..pitfalls import memo_rule as _memo_rule
     _memo_rule(repo, rep, 'C08', 'C08.Z1')
+    from ..pitfalls import log_rule as _log_rule
+    _log_rule(repo, rep, 'C08', 'C08.Z2')
     dm = repo.module('dimsemessages')
     hier = exc_hierarchy(repo)
     base = repo.cls('dimsemessages', 'DIMSEMessage')
